@@ -3,10 +3,11 @@
    point on integer-encoded arguments, [spec tag args] evaluates the
    independent specification (wildcard -9 where the spec has no opinion).
    Both are extracted to OCaml and also evaluated by vm_compute in cases_*.v. *)
-From GJ Require Import Base Kernel KernelSpec Series SeriesSpec Ring RingSpec.
+From GJ Require Import Base Kernel KernelSpec Series SeriesSpec Ring RingSpec Index IndexExec.
 
 Definition WILD : Z := -9.
 Definition BAD : list Z := [-1].
+Definition ANY : list Z := [-8].      (* spec has no opinion on this output at all *)
 
 Definition mkseg (ax ay bx by_ : Z) : seg := ((ax, ay), (bx, by_)).
 
@@ -139,6 +140,69 @@ Definition spec_line_pip (l : list Z) : list Z :=
   | _ => BAD
   end.
 
+(* C04.  tag 40: index bytes; args = s kind closed n coords.
+   tag 41: search; args = s kind closed n coords qminx qminy qmaxx qmaxy stopk
+           output = ncallbacks :: sorted reported ++ reported in callback order
+   tag 42: search after Move; args = ... stopk dx dy *)
+Fixpoint insert_sorted (x : Z) (l : list Z) : list Z :=
+  match l with [] => [x] | y :: r => if x <=? y then x :: l else y :: insert_sorted x r end.
+Definition sort_z (l : list Z) : list Z := fold_right insert_sorted [] l.
+
+Definition firstn_z (k : Z) (l : list Z) : list Z := if k <? 0 then l else firstn (Z.to_nat k) l.
+
+Definition mk_series (cl : Z) (ps : list pt) : series := {| closed := cl =? 1; pts := ps |}.
+
+Definition run_index_bytes (l : list Z) : list Z :=
+  match l with
+  | sc :: kind :: cl :: n :: r =>
+      let '(ps, rest) := take_pts (Z.to_nat n) r in
+      match rest with
+      | [] => if (length ps <? 1)%nat then [] else build_index_bytes sc kind (mk_series cl ps)
+      | _ => BAD
+      end
+  | _ => BAD
+  end.
+
+Definition search_out (reported : list Z) : list Z :=
+  Z.of_nat (length reported) :: sort_z reported ++ reported.
+
+Definition run_search (moved : bool) (l : list Z) : list Z :=
+  match l with
+  | sc :: kind :: cl :: n :: r =>
+      let '(ps, rest) := take_pts (Z.to_nat n) r in
+      match moved, rest with
+      | false, [a; b; c; d; k] =>
+          (* makeSeries (series.go:96-99): MinPoints = 1, so the index exists iff there is a point *)
+          let kind' := if (length ps <? 1)%nat then 0 else kind in
+          search_out (firstn_z k (series_search kind' (mk_series cl ps) ((a, b), (c, d))))
+      | true, [a; b; c; d; k; dx; dy] =>
+          (* baseSeries.Move (series.go:111-123): makeSeries with the default options
+             (QuadTree, MinPoints 64) first; the original kind is used only when that
+             built no index and the original series had one *)
+          let kind0 := if (length ps <? 1)%nat then 0 else kind in
+          let kind' := if (64 <=? length ps)%nat then 2 else kind0 in
+          search_out (firstn_z k (series_search kind' (mk_series cl (move_pts ps dx dy)) ((a, b), (c, d))))
+      | _, _ => BAD
+      end
+  | _ => BAD
+  end.
+
+Definition spec_search (moved : bool) (l : list Z) : list Z :=
+  match l with
+  | sc :: kind :: cl :: n :: r =>
+      let '(ps, rest) := take_pts (Z.to_nat n) r in
+      let go ps' a b c d k :=
+        let all := search_spec (mk_series cl ps') ((a, b), (c, d)) in
+        if k <? 0 then Z.of_nat (length all) :: all ++ repeat WILD (length all)
+        else let m := Nat.min (Z.to_nat k) (length all) in Z.of_nat m :: repeat WILD (m + m) in
+      match moved, rest with
+      | false, [a; b; c; d; k] => go ps a b c d k
+      | true, [a; b; c; d; k; dx; dy] => go (move_pts ps dx dy) a b c d k
+      | _, _ => BAD
+      end
+  | _ => BAD
+  end.
+
 Definition run (tag : Z) (args : list Z) : list Z :=
   match tag, args with
   | 1, [_; ax; ay; bx; by_; x; y] =>
@@ -158,6 +222,9 @@ Definition run (tag : Z) (args : list Z) : list Z :=
   | 21, _ :: l => run_ring_pip l
   | 22, [_; mnx; mny; mxx; mxy; x; y] => rep 9 (b2z (rect_contains_point ((mnx, mny), (mxx, mxy)) (x, y)))
   | 23, _ :: _ :: _ :: l => run_line_pip l
+  | 40, l => run_index_bytes l
+  | 41, l => run_search false l
+  | 42, l => run_search true l
   | _, _ => BAD
   end.
 
@@ -181,6 +248,9 @@ Definition spec (tag : Z) (args : list Z) : list Z :=
   | 21, _ :: l => spec_ring_pip l
   | 22, [_; mnx; mny; mxx; mxy; x; y] => rep 9 (b2z (in_rectb ((mnx, mny), (mxx, mxy)) (x, y)))
   | 23, _ :: _ :: _ :: l => spec_line_pip l
+  | 40, l => ANY
+  | 41, l => spec_search false l
+  | 42, l => spec_search true l
   | _, _ => BAD
   end.
 
@@ -192,12 +262,14 @@ Fixpoint zlist_eqb (a b : list Z) : bool :=
   | _, _ => false
   end.
 
-Fixpoint zlist_match (impl sp : list Z) : bool :=   (* spec may hold wildcards *)
+Fixpoint zlist_match' (impl sp : list Z) : bool :=   (* spec may hold wildcards *)
   match impl, sp with
   | [], [] => true
-  | x :: a', y :: b' => ((y =? WILD) || (x =? y)) && zlist_match a' b'
+  | x :: a', y :: b' => ((y =? WILD) || (x =? y)) && zlist_match' a' b'
   | _, _ => false
   end.
+Definition zlist_match (impl sp : list Z) : bool :=
+  match sp with [-8] => true | _ => zlist_match' impl sp end.
 
 Definition case := (Z * list Z * list Z)%type.     (* tag, args, implementation output *)
 
